@@ -177,6 +177,12 @@ func genSpecial(r *gen.Rand, kind string) history {
 	idx := func(delta bool) *indexRec { return &indexRec{Delta: delta, Branches: []string{"HEAD"}} }
 	base := map[string]ent{"a.txt": file(r.Intn(3)), "dir/c.txt": file(r.Intn(3))}
 	switch kind {
+	case "head-not-first":
+		dev := map[string]ent{"a.txt": file(3), "dev-only.txt": file(4)}
+		h.Steps = []stepRec{
+			{Commits: []commitRec{{Branch: "main", Tree: cloneTree(base), Why: "init"}, {Branch: "dev", Tree: dev, Why: "init"}},
+				Index: &indexRec{Branches: []string{"dev", "HEAD"}}},
+		}
 	case "gitlink":
 		t0, t1 := cloneTree(base), cloneTree(base)
 		p := gen.Pick(r, []string{"e", "dir/g"})
@@ -213,21 +219,21 @@ func genSpecial(r *gen.Rand, kind string) history {
 	return h
 }
 
+// pickIndexed chooses the indexed branch list. "HEAD", when indexed, comes first: zoekt evaluates `branch:HEAD`
+// as "the first indexed branch" (index/matchtree.go), so a branch named HEAD in any other position cannot be
+// searched by name (scripted history "head-not-first", a known finding).
 func pickIndexed(r *gen.Rand, branches []string) []string {
 	var out []string
-	if r.Chance(1, 3) {
-		out = append(out, "HEAD")
-	}
 	for _, b := range branches {
 		if r.Chance(4, 5) {
 			out = append(out, b)
 		}
 	}
-	if len(out) == 0 {
-		out = []string{"HEAD"}
-	}
 	if r.Chance(1, 6) {
 		gen.Shuffle(r, out)
+	}
+	if r.Chance(1, 3) || len(out) == 0 {
+		out = append([]string{"HEAD"}, out...)
 	}
 	return out
 }
@@ -428,7 +434,9 @@ func (rn *runner) run(h history, id string) {
 	os.MkdirAll(indexDir, 0o755)
 	g := gen.NewGitRepo(repoDir)
 	detail := gen.Detail(h)
-	inModel := true // every generated kind is inside the Lean model (ignore files since the model has `Ignore`)
+	// every generated kind is inside the Lean model, except the scripted known finding about `branch:HEAD`
+	// (a property of the search, not of indexing: Go oracle only)
+	inModel := h.Kind != "head-not-first"
 	emit := func(c gen.Case) {
 		c.Detail = detail
 		if !inModel {
@@ -776,7 +784,7 @@ func main() {
 		}
 	}
 	for i := 0; i < f.N(1, 10); i++ {
-		for _, kind := range []string{"gitlink", "ignore", "ignore-change"} {
+		for _, kind := range []string{"gitlink", "ignore", "ignore-change", "head-not-first"} {
 			rn.run(genSpecial(r.Fork(), kind), kind)
 		}
 	}
